@@ -30,7 +30,7 @@ use barter_instrument::{
     asset::AssetIndex, exchange::ExchangeIndex, index::IndexedInstruments,
     instrument::InstrumentIndex,
 };
-use rust_decimal::prelude::ToPrimitive;
+use rust_decimal::{Decimal, prelude::ToPrimitive};
 use serde::{Deserialize, Serialize};
 
 #[derive(Clone, Copy, PartialEq, Eq, Debug)]
@@ -81,6 +81,9 @@ pub enum OpA {
     /// a fill reported on the account stream that names the exchange order id of order `ord`
     /// (exchanges report the order update and the trade separately): not an order report
     AcctFill { ord: usize, t: i64, qty: i64 },
+    /// restart from persisted state: instrument and asset states are written as JSON and read back
+    /// (only durable state survives; it must be the state)
+    Restore,
     /// a liquidation print on the market stream: not a trade, not a top of book
     Liq { inst: usize, t: i64, price: i64 },
 }
@@ -119,6 +122,60 @@ pub struct ScenarioA {
     /// smaller units put several distinct exchange timestamps inside one millisecond
     #[serde(default)]
     pub tick_us: Option<i64>,
+    /// decimal places of every order quantity: quantity = qty x 10^-scale (0 = whole units; 9 puts
+    /// what is left to fill below 1e-8)
+    #[serde(default)]
+    pub qty_scale: u32,
+    /// k > 0: every exchange report whose salt is a multiple of k carries `StrategyId::unknown()`
+    /// instead of the strategy that opened the order (orders are keyed by client order id alone)
+    #[serde(default)]
+    pub alt_strategy: u8,
+}
+
+thread_local! {
+    static QTY_SCALE: std::cell::Cell<u32> = const { std::cell::Cell::new(0) };
+    static ALT_STRATEGY: std::cell::Cell<u8> = const { std::cell::Cell::new(0) };
+}
+
+struct KnobGuard;
+impl Drop for KnobGuard {
+    fn drop(&mut self) {
+        QTY_SCALE.with(|c| c.set(0));
+        ALT_STRATEGY.with(|c| c.set(0));
+    }
+}
+fn set_knobs(qty_scale: u32, alt_strategy: u8) -> KnobGuard {
+    QTY_SCALE.with(|c| c.set(qty_scale.min(12)));
+    ALT_STRATEGY.with(|c| c.set(alt_strategy));
+    KnobGuard
+}
+
+/// order quantity in the scenario's quantity unit
+fn qdec(n: i64) -> Decimal {
+    Decimal::new(n, QTY_SCALE.with(|c| c.get()))
+}
+
+/// key of an exchange report: now and then labelled with the unknown strategy
+fn rkey(ex: usize, inst: usize, cid: &str, salt: i64) -> barter_execution::order::OrderKey {
+    let mut k = okey(ex, inst, cid);
+    let m = ALT_STRATEGY.with(|c| c.get()) as i64;
+    if m > 0 && salt.rem_euclid(m) == 0 {
+        k.strategy = barter_execution::order::id::StrategyId::unknown();
+    }
+    k
+}
+
+fn salt_of(ord: usize, st: &SnapSt) -> i64 {
+    ord as i64
+        + match st {
+            SnapSt::Open(o) => o.t + o.filled,
+            SnapSt::InFlightCancel(Some(o)) => o.t + 1,
+            SnapSt::Cancelled { t } => *t + 2,
+            SnapSt::FullyFilled => 3,
+            SnapSt::Expired => 4,
+            SnapSt::Failed => 5,
+            _ => 6,
+        }
 }
 
 pub fn topo_instruments(topo: u8) -> IndexedInstruments {
@@ -239,7 +296,7 @@ fn open_of(ord: usize, o: &OD) -> Open {
     Open {
         id: OrderId::new(oid(ord, o.id)),
         time_exchange: ts(o.t),
-        filled_quantity: dec(o.filled),
+        filled_quantity: qdec(o.filled),
     }
 }
 
@@ -250,7 +307,7 @@ fn od_of(ord: usize, o: &Open) -> OD {
     OD {
         id,
         t: ms_of(o.time_exchange),
-        filled: o.filled_quantity.to_i64().unwrap_or(-1),
+        filled: (o.filled_quantity * Decimal::from(10i64.pow(QTY_SCALE.with(|c| c.get())))).to_i64().unwrap_or(-1),
     }
 }
 
@@ -335,7 +392,7 @@ const PRICE: i64 = 100;
 fn snap_event(w: &World, sc: &ScenarioA, ord: usize, st: &SnapSt) -> AccountEvent {
     let def = &sc.orders[ord];
     let ex = w.inst_ex[def.inst];
-    let mut o = order_snapshot(okey(ex, def.inst, &cid(ord)), def.buy, dec(PRICE), dec(def.qty), order_state(ord, st));
+    let mut o = order_snapshot(rkey(ex, def.inst, &cid(ord), salt_of(ord, st)), def.buy, dec(PRICE), qdec(def.qty), order_state(ord, st));
     o.time_in_force = tif_of(def.tif);
     ev_order_snapshot(ex, o)
 }
@@ -362,7 +419,7 @@ fn full_event(w: &World, sc: &ScenarioA, items: &[FullItem]) -> AccountEvent {
                 if k == 0 {
                     ex = oex;
                 }
-                let mut o = order_snapshot(okey(oex, def.inst, &cid(*ord)), def.buy, dec(PRICE), dec(def.qty), order_state(*ord, st));
+                let mut o = order_snapshot(rkey(oex, def.inst, &cid(*ord), salt_of(*ord, st)), def.buy, dec(PRICE), qdec(def.qty), order_state(*ord, st));
                 o.time_in_force = tif_of(def.tif);
                 orders.push((def.inst, o));
             }
@@ -399,6 +456,7 @@ fn touched(sc: &ScenarioA, op: &OpA) -> Touched {
         OpA::AcctFill { ord, .. } => t.positions.push(sc.orders[*ord].inst),
         // (any market event of an instrument re-marks its open position at the current price)
         OpA::Liq { inst, .. } => t.positions.push(*inst),
+        OpA::Restore => {}
         OpA::Full { items } => {
             for it in items {
                 match it {
@@ -413,6 +471,7 @@ fn touched(sc: &ScenarioA, op: &OpA) -> Touched {
 
 fn mask(s: &mut St, t: &Touched) {
     s.connectivity = Default::default();
+    s.global = Default::default();
     for (inst, ord) in &t.orders {
         s.instruments
             .instrument_index_mut(&InstrumentIndex(*inst))
@@ -444,7 +503,7 @@ fn apply(state: &mut St, w: &World, sc: &ScenarioA, op: &OpA) {
                 okey(ex, def.inst, &cid(*ord)),
                 def.buy,
                 dec(PRICE),
-                dec(def.qty),
+                qdec(def.qty),
                 barter_execution::order::OrderKind::Limit,
             );
             state.record_in_flight_open(&req);
@@ -465,7 +524,7 @@ fn apply(state: &mut St, w: &World, sc: &ScenarioA, op: &OpA) {
             let ev = AccountEvent {
                 exchange: ExchangeIndex(ex),
                 kind: AccountEventKind::OrderCancelled(OrderResponseCancel {
-                    key: okey(ex, def.inst, &cid(*ord)),
+                    key: rkey(ex, def.inst, &cid(*ord), *ord as i64 + *t),
                     state: if *ok {
                         Ok(Cancelled {
                             id: OrderId::new(oid(*ord, 0)),
@@ -511,8 +570,20 @@ fn apply(state: &mut St, w: &World, sc: &ScenarioA, op: &OpA) {
             let def = &sc.orders[*ord];
             let ex = w.inst_ex[def.inst];
             // names the exchange order id the order's reports use most often
-            let ev = ev_trade(ex, def.inst, &format!("f{ord}_{t}"), &oid(*ord, 0), def.buy, dec(PRICE), dec(*qty), dec(0), *t);
+            let ev = ev_trade(ex, def.inst, &format!("f{ord}_{t}"), &oid(*ord, 0), def.buy, dec(PRICE), qdec(*qty), dec(0), *t);
             state.update_from_account(&ev);
+        }
+        OpA::Restore => {
+            // (the whole EngineState has maps with structured keys and does not round-trip through
+            // JSON; the instrument states do, and every asset state does on its own)
+            if let Some(r) = serde_json::to_string(&state.instruments).ok().and_then(|t| serde_json::from_str(&t).ok()) {
+                state.instruments = r;
+            }
+            for a in state.assets.0.values_mut() {
+                if let Some(r) = serde_json::to_string(&*a).ok().and_then(|t| serde_json::from_str(&t).ok()) {
+                    *a = r;
+                }
+            }
         }
         OpA::Liq { inst, t, price } => {
             let ex = w.instruments.instruments()[*inst].value.exchange.value;
@@ -555,6 +626,7 @@ fn op_tag(op: &OpA) -> String {
         OpA::L1 { inst, .. } => format!("l{inst}"),
         OpA::AcctFill { ord, .. } => format!("af{ord}"),
         OpA::Liq { inst, .. } => format!("q{inst}"),
+        OpA::Restore => "restore".to_string(),
         OpA::Full { items } => {
             let mut s = String::from("full[");
             for it in items {
@@ -643,6 +715,7 @@ impl Sim for SimA {
     fn execute(&self, sc: &ScenarioA, ctx: &ExecCtx<'_>) -> Outcome {
         let pid = self.pid();
         let _tick = set_tick_us(sc.tick_us.unwrap_or(1000));
+        let _knobs = set_knobs(sc.qty_scale, sc.alt_strategy);
         let w = World::new(sc.topo);
         let mut log = Log::new(ctx.keep_log);
         let mut stats = RunStats::default();
@@ -705,6 +778,7 @@ impl Sim for SimA {
                     "stale_full" => stats.fault("stale_full_snapshot"),
                     "dup_request" => stats.fault("duplicate_request_record"),
                     "delayed" => stats.fault("delay"),
+                    "state_persisted_and_restored" => stats.fault("state_persisted_and_restored"),
                     _ => {}
                 }
             }
@@ -1278,6 +1352,7 @@ impl Sim for SimA {
             "drop",
             "stale_full_snapshot",
             "duplicate_request_record",
+            "state_persisted_and_restored",
         ]
     }
     fn probe_kinds(&self) -> Vec<&'static str> {
@@ -1812,6 +1887,10 @@ fn plan_a(prop: PropA, rng: &mut Rng, sub: usize) -> ScenarioA {
         seq += 1;
         msgs.push((rng.range(0, horizon), seq + 2_000_000, OpA::Liq { inst: rng.usize(w.n_inst()), t: rng.range(0, 300), price: rng.range(1, 500) }, None));
     }
+    if rng.chance(1, 4) {
+        seq += 1;
+        msgs.push((rng.range(0, horizon), seq + 2_000_000, OpA::Restore, Some("state_persisted_and_restored".into())));
+    }
     msgs.sort_by_key(|m| (m.0, m.1));
     // dropped messages never arrive; the *next* delivered message carries the 'drop fired' tag
     let mut ops: Vec<(OpA, Option<String>)> = Vec::new();
@@ -1829,5 +1908,7 @@ fn plan_a(prop: PropA, rng: &mut Rng, sub: usize) -> ScenarioA {
         ops,
         n_dropped: dropped as u64,
         tick_us: *rng.pick(&[None, None, Some(250i64), Some(7), Some(1)]),
+        qty_scale: *rng.pick(&[0u32, 0, 0, 0, 3, 9, 10]),
+        alt_strategy: *rng.pick(&[0u8, 0, 1, 2, 3]),
     }
 }
